@@ -2,7 +2,8 @@
    the code: source_exports, the empty-_hy_macros package path, the prefix,
    the per-name loop that warns, then assigns or raises HyRequireError in the
    middle (earlier names stay assigned).  The (prefix, assignments) pair of
-   each require shape is read from the generated assignment_shape table. *)
+   each require shape is read from the generated assignment_shape table and
+   the generated override of compile_require. *)
 From HyV Require Import Base.Text MacroNS.LookupSyntax Gen.MacroLookup MacroNS.LookupModel.
 
 (* a source module: its _hy_macros and its _hy_export_macros attribute, if any *)
@@ -108,8 +109,9 @@ Fixpoint table_row (t : shape_tag) (tb : list (shape_tag * (prefix_kind * assign
   | (t', row) :: r => if shape_tag_eqb t t' then Some row else table_row t r
   end.
 
-(* assignment_shape(module, rest) *)
-Definition shape_params_in (tb : list (shape_tag * (prefix_kind * assign_kind)))
+(* assignment_shape(module, rest), then compile_require's
+   `if prefix: assignments = <override>` when the source has that statement *)
+Definition shape_params_in (tb : list (shape_tag * (prefix_kind * assign_kind))) (ov : option assign_kind)
                            (modname : name) (sh : rshape) : option (text * assignments) :=
   match table_row (tag_of sh) tb with
   | None => None
@@ -119,7 +121,11 @@ Definition shape_params_in (tb : list (shape_tag * (prefix_kind * assign_kind)))
                     | PfModuleName => modname
                     | PfAlias => match sh with RAs a => a | _ => [] end
                     end in
-      let asg := match ak with
+      let ak' := match prefix, ov with
+                 | _ :: _, Some k => k          (* `if prefix:` -- a non-empty string *)
+                 | _, _ => ak
+                 end in
+      let asg := match ak' with
                  | AkExports => AExports
                  | AkAll => AAll
                  | AkList => match sh with
@@ -130,7 +136,7 @@ Definition shape_params_in (tb : list (shape_tag * (prefix_kind * assign_kind)))
       Some (prefix, asg)
   end.
 
-Definition shape_params := shape_params_in shape_table.
+Definition shape_params := shape_params_in shape_table prefixed_override.
 
 (* compile_require for one entry without :readers: the local dict when in a
    local state, the module's _hy_macros otherwise; compiler = compiler *)
